@@ -50,14 +50,19 @@ func (f *Rplacd) Call(s *slip.Scope, args slip.List, depth int) (result slip.Obj
 	if !ok || len(list) == 0 {
 		slip.TypePanic(s, depth, "cons", args[0], "cons", "list")
 	}
+	// A nil cdr is the empty list, not an atom to be wrapped in a tail.
+	a2, ok2 := args[1].(slip.List)
+	if args[1] == nil {
+		ok2 = true
+	}
 	if 1 < len(list) {
 		list = list[:2]
-		if a2, ok2 := args[1].(slip.List); ok2 {
+		if ok2 {
 			list = append(list[:1], a2...)
 		} else {
 			list[1] = slip.Tail{Value: args[1]}
 		}
-	} else if a2, ok2 := args[1].(slip.List); ok2 {
+	} else if ok2 {
 		list = append(list, a2...)
 	} else {
 		list = append(list, slip.Tail{Value: args[1]})
